@@ -295,8 +295,20 @@ static void one_case(int iface, int transport, int version, int src_tail, int nc
 						if (reply == R_STATUS) vf_outcome("async:status-details:%s", ((uint64_t)ee == STATUSES[sub % NSTATUS] && em != NULL) ? "reported" : "not-reported");
 					}
 				}
-				if (state == KSI_ASYNC_STATE_RESPONSE_RECEIVED) res = KSI_AsyncHandle_getSignature(out, &ext);
-				else res = err ? err : KSI_UNKNOWN_ERROR;
+				if (state == KSI_ASYNC_STATE_RESPONSE_RECEIVED) {
+					res = KSI_AsyncHandle_getSignature(out, &ext);
+					if (res == KSI_OK && ext != NULL) {
+						/* asking the completed handle again gives the same extended signature */
+						KSI_Signature *again = NULL;
+						unsigned char *r1 = NULL, *r2 = NULL;
+						size_t n1 = 0, n2 = 0;
+						int ra = KSI_AsyncHandle_getSignature(out, &again);
+						vf_count("impl_calls", 1);
+						if (ra != KSI_OK || again == NULL || KSI_Signature_serialize(ext, &r1, &n1) != KSI_OK || KSI_Signature_serialize(again, &r2, &n2) != KSI_OK || n1 != n2 || memcmp(r1, r2, n1) != 0)
+							vf_fail("second-signature-differs", "%s: the second KSI_AsyncHandle_getSignature on the completed handle gives 0x%x and %zu bytes, the first gave %zu bytes", what, ra, n2, n1);
+						KSI_free(r1); KSI_free(r2); KSI_Signature_free(again);
+					}
+				} else res = err ? err : KSI_UNKNOWN_ERROR;
 				KSI_AsyncHandle_free(out);
 			}
 		}
